@@ -144,6 +144,21 @@ class Violation(Exception):
         self.prop, self.oracle, self.detail = prop, oracle, detail
 
 
+INTERPRETATION_ERRORS = (KeyError, IndexError, AttributeError, TypeError, ValueError)
+
+
+def uninterpretable(rec, exc):
+    """The executor could not make sense of a value the library returned (e.g. a
+    label that is not in the context, an object without the documented
+    attribute).  That is a wrong result, not a fault of the machinery: report it
+    as a violation of the property under check, with the traceback as detail.
+    Anything else (HarnessError, AssertionError, OSError...) stays a HARNESS-ERROR."""
+    prop = sorted(rec.props)[0] if rec.props else 'C00'
+    rec.evals += 1
+    tb = traceback.format_exc()
+    return Violation(prop, f'{prop}.result_not_interpretable', f'{type(exc).__name__}: {exc}\n{tb[-900:]}')
+
+
 class Recorder:
     """Per-run bookkeeping shared by all world executors."""
 
